@@ -151,6 +151,46 @@ Definition stream_order_b (msgs : list sent) (ins : list input) : bool :=
   order_ok msgs ins 0 0.
 
 (* ------------------------------------------------------------------------ *)
+(* the same from the start of the connection: the stream is the handshake bytes
+   [hs] (NUL byte, authentication lines) followed by the messages.  Descriptors
+   may arrive anywhere after the start - also before or together with the line
+   that completes the handshake (a peer pipelining its first message) -, still in
+   sending order and each no later than the final byte of its message. *)
+Definition stream_order_hs (hs : bytes) (msgs : list sent) (ins : list input) : Prop :=
+  prefix (bytes_of ins) (hs ++ concat (map wire msgs)) /\
+  prefix (fds_of ins) (concat (map sn_fds msgs)) /\
+  forall pre b post, ins = pre ++ Read b :: post ->
+    (length (fds_upto msgs (complete msgs (length (bytes_of pre) + length b - length hs)))
+     <= length (fds_of pre))%nat.
+
+(* messages that must have been delivered, and the queue *)
+Definition expected_hs (hs : bytes) (msgs : list sent) (ins : list input) : list seen * list pyval :=
+  let k := complete msgs (length (bytes_of ins) - length hs) in
+  (map seen_of (firstn k msgs), skipn (length (fds_upto msgs k)) (fds_of ins)).
+
+(* the reads of a history *)
+Fixpoint reads (ins : list input) : list bytes :=
+  match ins with
+  | [] => []
+  | Read b :: r => b :: reads r
+  | Fd _ :: r => reads r
+  end.
+
+Fixpoint order_ok_hs (nhs : nat) (msgs : list sent) (ins : list input) (nb nf : nat) : bool :=
+  match ins with
+  | [] => true
+  | Fd _ :: r => order_ok_hs nhs msgs r nb (S nf)
+  | Read b :: r =>
+      (length (fds_upto msgs (complete msgs (nb + length b - nhs))) <=? nf)%nat
+      && order_ok_hs nhs msgs r (nb + length b) nf
+  end.
+
+Definition stream_order_hs_b (hs : bytes) (msgs : list sent) (ins : list input) : bool :=
+  is_prefix N.eqb (bytes_of ins) (hs ++ concat (map wire msgs)) &&
+  is_prefix pv_eqb (fds_of ins) (concat (map sn_fds msgs)) &&
+  order_ok_hs (length hs) msgs ins 0 0.
+
+(* ------------------------------------------------------------------------ *)
 (* sending                                                                    *)
 
 (* the UNIX_FD indices of a typed value in argument order (depth first, left to
